@@ -15,6 +15,9 @@ pub fn insert_keyword_statement_terminators(input: Vec<Token>, _file_id: &FileId
     for tok in input {
         if !in_end_statement && tok.token_type == TokenType::EndIf {
             in_end_statement = true;
+        } else if in_end_statement && tok.token_type == TokenType::Semicolon {
+            // The statement has an explicit terminator
+            in_end_statement = false;
         } else if in_end_statement
             && tok.token_type != TokenType::Semicolon
             && tok.token_type != TokenType::Comment
@@ -28,7 +31,8 @@ pub fn insert_keyword_statement_terminators(input: Vec<Token>, _file_id: &FileId
                 col: tok.col,
                 text: "".to_owned(),
             });
-            in_end_statement = false;
+            // The token that ended the statement may itself be an END_IF
+            in_end_statement = tok.token_type == TokenType::EndIf;
         }
 
         output.push(tok);
